@@ -142,6 +142,7 @@ func subdecks(tier string) []subdeck {
 		{"quads-boats-4suits", cross("SHDC", "AK76"), "standard", 2, 0, []int{5, 6, 7}},
 		{"short-flush-vs-boat", cross("SHD", "KQJ97"), "short", 2, 0, []int{5, 6, 7}},
 		{"omaha-exactly-two", cross("SH", "A2345K"), "standard", 4, 2, []int{7, 8, 9}},
+		{"short-omaha-flush-and-boat", append(cross("S", "AKQJ76"), cross("HD", "AKQ")...), "short", 4, 2, []int{7, 8, 9}},
 	}
 	if tier == "thorough" {
 		ds = append(ds,
